@@ -26,6 +26,11 @@ type verifRecorder struct {
 	// failing Write still takes one byte
 	failFrom  int
 	failShort bool
+	// finished is set (by the goroutine that ran the handler) once ServeHTTP has returned; net/http then
+	// finishes the response without further synchronisation, so any later use of the ResponseWriter is a
+	// data race with that step: Write and Flush read the flag, which makes such a use visible to the race
+	// detectors (the engine's and the runtime's)
+	finished bool
 }
 
 var errVerifBrokenPipe = errors.New("write: broken pipe")
@@ -40,6 +45,7 @@ func (r *verifRecorder) WriteHeader(code int) {
 	}
 }
 func (r *verifRecorder) Write(p []byte) (int, error) {
+	_ = r.finished
 	if !r.wroteHeader {
 		r.WriteHeader(200)
 	}
@@ -57,6 +63,7 @@ func (r *verifRecorder) Write(p []byte) (int, error) {
 	return len(p), nil
 }
 func (r *verifRecorder) Flush() {
+	_ = r.finished
 	r.flushes++
 	if r.onFlush != nil {
 		r.onFlush()
